@@ -356,6 +356,38 @@ def h_count(dtype, k):
     return h
 
 
+COUNT_CASES = {
+    'float32': ([0.0, -0.0, 1.5, 0.0], [0.0, -0.0, 1.5, 0.1, 1, 2, True]),
+    'float16': ([0.1, 1.0, -0.0], [0.1, 0.0999755859375, 1, 0.0, 1.0000001]),
+    'uint8': ([1, 2, 1, 0], [1, 1.0, 1.5, '1', True, None, 0, False, 256, -1]),
+    'int4': ([-1, 0, 7], [-1, 15, -1.0, 7, 8, '7']),
+    'hex8': (['ab', 'cd', 'ab'], ['ab', 'AB', '0xab', 'a', 171, b'ab']),
+    'bin3': (['101', '000'], ['101', '0b101', 5, '1_01']),
+    'bool': ([True, False, True], [1, True, 0, 1.0, '1', None]),
+    'bytes2': ([b'ab', b'cd'], [b'ab', 'ab', bytearray(b'ab'), b'a']),
+    'e4m3mxfp': ([0.0, -0.0, 1.0], [0.0, -0.0, 1.0, 1.01, 1]),
+}
+
+
+def h_count_probe(dtype):
+    """count(v) == tolist().count(v) for probes that are equal-but-not-identical to an item (signed zero, 1 / 1.0 / True), not representable in the dtype,
+    non-canonical spellings or of another type (NaN excluded: the library documents that it counts NaNs)"""
+    def h(K):
+        import bitstring
+        items, probes = COUNT_CASES[dtype]
+        a = bitstring.Array(dtype, items)
+        tr = K.choice('trailing', ['', '0b1'])
+        if tr:
+            a.data.append(tr)
+        v = K.choice('probe', probes)
+        r = call(lambda: a.count(v))
+        want = a.tolist().count(v)
+        if not r.ok:
+            return K.fail('count raised', exc=r.excname, probe=repr(v))
+        return K.check(r.value == want, 'count(v) differs from the list model tolist().count(v)', probe=repr(v), got=r.value, expected=want, items=repr(a.tolist()))
+    return h
+
+
 ARITH = {'add': operator.add, 'sub': operator.sub, 'mul': operator.mul, 'floordiv': operator.floordiv, 'lshift': operator.lshift, 'rshift': operator.rshift, 'mod': operator.mod}
 IARITH = {'add': operator.iadd, 'sub': operator.isub, 'mul': operator.imul, 'floordiv': operator.ifloordiv, 'lshift': operator.ilshift, 'rshift': operator.irshift, 'mod': operator.imod}
 CMP = {'lt': operator.lt, 'ge': operator.ge, 'eq': operator.eq, 'ne': operator.ne}
@@ -546,6 +578,8 @@ def conditions(tier):
         if d not in ('uintle16', '>H', '<i'):
             add(f'C14.count[{d},k=3]', h_count(d, 3), 'all data of 3 items x value', dtype=d)
         add(f'C14.build[{d}]', h_build(d), 'two symbolic values', dtype=d)
+    for d in COUNT_CASES:
+        add(f'C14.count-probe[{d}]', h_count_probe(d), 'concrete items x probes equal to / near / unlike the items (catalogue chosen by solver forks) x trailing bits', dtype=d)
     add('C14.build[bytes2]', h_build('bytes2'), 'two byte strings (byte-multiplier dtype)', dtype='bytes2')
     add('C14.read[bytes2,k=2,t=3]', h_read('bytes2', 2, 3), 'all data of 2 items + 3 trailing bits', dtype='bytes2')
     for d in (['uint5', 'int8'] if q else ['uint5', 'int8', 'int3', 'uint1']):
